@@ -42,6 +42,9 @@ var (
 	flagXDir    = flag.String("sim.xdir", "", "scratch directory for the cross-build blob exchange (C11)")
 )
 
+// replayInputs holds the materialised inputs of the replay file being re-executed (nil otherwise).
+var replayInputs map[string]string
+
 // engines maps a property to its run function.
 var engines = map[string]func(r *Run){}
 
@@ -281,7 +284,11 @@ func WorkerMain(t *testing.T) {
 			line.Sample = res.Sample
 		}
 		if fplog != nil {
-			fmt.Fprintf(fplog, "%d %x %d %d\n", idx, res.FP, res.Evals, len(res.Violations))
+			ev := res.Evals
+			if prop == "C19" {
+				ev = 0 // the number of distinct mutated blobs depends on the process-random string-dedup hash seed
+			}
+			fmt.Fprintf(fplog, "%d %x %d %d\n", idx, res.FP, ev, len(res.Violations))
 		}
 		// determinism self-check: re-execute a sample of seeds from their recorded tapes
 		if *flagRecheck > 0 && (idx%*flagRecheck == 0 || len(res.Violations) > 0) {
@@ -392,6 +399,7 @@ func replayMain(t *testing.T) {
 		*flagXDir = dir
 		rf.Property = "C11X"
 	}
+	replayInputs = rf.Inputs
 	res := execute(t, rf.Property, rf.Tier, NewReplay(rf.Tape))
 	if res.Harness != "" {
 		fmt.Printf("REPLAY-HARNESS-TROUBLE %s\n", res.Harness)
